@@ -269,4 +269,11 @@ def rb_binding_agreement(ctx: Ctx) -> None:
     binding_agreement(ctx)
 
 
-RULES = [r1_record_kinds, r2_fields, r3_delta_and_order, r4_plumbing, rb_binding_agreement]
+def rm_no_process_lifetime_results(ctx: Ctx) -> None:
+    """memoising decorators, module-level stores and mutable defaults on this property's mechanism (shared rule, caches.py)"""
+    from ..caches import state_rule
+
+    state_rule(ctx)
+
+
+RULES = [r1_record_kinds, r2_fields, r3_delta_and_order, r4_plumbing, rb_binding_agreement, rm_no_process_lifetime_results]
